@@ -25,7 +25,8 @@ def sh(cmd, **kw):
         return 'timeout', ''
 
 
-def one(d):
+def one(job):
+    d, seed, nowrite = job
     sid = os.path.basename(d)
     meta = json.load(open(os.path.join(d, 'meta.json')))
     prop = meta['property']
@@ -41,14 +42,16 @@ def one(d):
             res = {'applies': False, 'error': out[-300:]}
         else:
             env = dict(os.environ, FALCON_REPO=wt, VERIF_EVIDENCE_DIR='/tmp/seedwt/ev-' + sid, VERIF_JOBS='4')
-            rc, out = sh([PY, os.path.join(VERIF, 'check.py'), prop, '--tier', 'quick'], cwd=VERIF, env=env)
+            rc, out = sh([PY, os.path.join(VERIF, 'check.py'), prop, '--tier', 'quick', '--seed', str(seed)], cwd=VERIF, env=env)
             res = {'exit': rc, 'kinds': sorted(set(re.findall(r'kind=(\S+)', out)))[:6],
                    'caught': rc == 1}
         head = sh(['git', '-C', '/repo', 'rev-parse', '--short', 'HEAD'])[1].strip()
         vhead = sh(['git', '-C', VERIF, 'rev-parse', '--short', 'HEAD'])[1].strip()
         res.update(repo_head=head, verif_head=vhead, tier='quick')
-        meta['check_result_final'] = res
-        json.dump(meta, open(os.path.join(d, 'meta.json'), 'w'), indent=1)
+        res['seed'] = seed
+        if not nowrite:
+            meta['check_result_final'] = res
+            json.dump(meta, open(os.path.join(d, 'meta.json'), 'w'), indent=1)
         return sid, res
     finally:
         sh(['git', '-C', '/repo', 'worktree', 'remove', '--force', wt])
@@ -59,6 +62,8 @@ def main():
     ap = argparse.ArgumentParser()
     ap.add_argument('--jobs', type=int, default=3)
     ap.add_argument('--only', default='')
+    ap.add_argument('--seed', type=int, default=0)
+    ap.add_argument('--no-write', action='store_true')
     a = ap.parse_args()
     only = [x for x in a.only.split(',') if x]
     dirs = sorted(glob.glob(os.path.join(VERIF, 'seeded', 'C*')))
@@ -66,7 +71,7 @@ def main():
         dirs = [d for d in dirs if any(os.path.basename(d) == o or os.path.basename(d).startswith(o + '-') for o in only)]
     missed = []
     with cf.ThreadPoolExecutor(a.jobs) as ex:
-        for sid, res in ex.map(one, dirs):
+        for sid, res in ex.map(one, [(d, a.seed, a.no_write) for d in dirs]):
             print(sid, 'CAUGHT' if res.get('caught') else 'MISSED', res.get('exit'), res.get('kinds', res.get('error')), flush=True)
             if not res.get('caught'):
                 missed.append(sid)
